@@ -5,7 +5,9 @@ import copy
 import itertools
 import numbers
 import pickle
+import uuid
 import weakref
+from fractions import Fraction
 
 import numpy as np
 
@@ -18,7 +20,7 @@ LIBERR = (XGIError, IDNotFound)
 
 NODE_KINDS = {
     "int": [0, 1, 2, 3, 4, 5, 6],
-    "gap": [-2, 0, 3, 7, 10, 11, 40],
+    "gap": [-2, -1, 0, 3, 7, 10, 40],  # -1 and -2 have the same hash in CPython
     "str": ["a", "b", "c", "d", "e", "f", "g"],
     "str2": ["n1", "b", "c_", "0", "10", "x9", "zz"],
     # three labels only: member sets collide all the time (duplicate edges, nested edges, IDs reused after merges)
@@ -101,12 +103,26 @@ def op_lists(op, max_ops):
 
 
 # 0 is drawn three times as often as the other literals: a falsy ID is the classic way to lose an explicit ID (`if idx:`)
-eid_literal = st.sampled_from([0, 0] + EID_ALPH)
+eid_literal = st.sampled_from([0, 0] + EID_ALPH + [2**53 + 1])  # 2**53 + 1: not representable as a float
+# hashable, non-iterable IDs of other types than int / str ("idx : hashable"); ['!', k] in a history
+EXOTIC = [complex(1, 2), float("inf"), uuid.UUID(int=7), Fraction(1, 2)]
+eid_exotic = st.tuples(st.just("!"), st.integers(0, len(EXOTIC) - 1)).map(list)
+# references to IDs that exist right now, for removal lists (duplicates wanted)
+eid_existing = st.tuples(st.just("#"), st.integers(0, 3)).map(list)
+eid_ref = st.one_of(eid_literal, eid_literal, eid_literal, eid_literal, st.tuples(st.just("#"), st.integers(0, 11)).map(list), st.tuples(st.just("#"), st.integers(0, 11)).map(list),
+                    st.tuples(st.sampled_from(["+", "+", "+f", "+n"]), st.integers(0, 3)).map(list), st.tuples(st.sampled_from(["+", "+", "+f", "+n"]), st.integers(0, 3)).map(list),
+                    st.tuples(st.just("-"), st.integers(0, 5)).map(list), st.tuples(st.just("-"), st.integers(0, 5)).map(list), eid_exotic)
+# lists of IDs to remove: mostly IDs that exist, repeated ones included
+eid_removal_list = st.one_of(
+    st.lists(st.one_of(eid_existing, eid_existing, eid_ref), max_size=4),
+    st.lists(st.one_of(eid_existing, eid_existing, eid_ref), max_size=4),
+    st.lists(st.one_of(eid_existing, eid_existing, eid_ref), max_size=4),
+    # an existing ID twice, then other IDs: the call fails half-way through the list
+    st.tuples(eid_existing, st.lists(eid_existing, min_size=1, max_size=2)).map(lambda t: [t[0], t[0]] + t[1]),
+)
 # an edge-ID reference: a literal, ['#', k] = k-th existing ID, or ['+', k] = (next automatic ID) + k, i.e. a new
 # explicit integer ID at or just above the counter - the IDs an automatic ID is most likely to collide with later
 # ['-', k] = k-th edge ID that existed earlier in this history and is gone now (IDs freed by removals and merges)
-eid_ref = st.one_of(eid_literal, eid_literal, st.tuples(st.just("#"), st.integers(0, 11)).map(list), st.tuples(st.sampled_from(["+", "+", "+f", "+n"]), st.integers(0, 3)).map(list),
-                    st.tuples(st.just("-"), st.integers(0, 5)).map(list))
 
 CTYPES = ["list", "tuple", "set", "frozenset", "iter"]
 
@@ -145,6 +161,8 @@ def resolve_eid(H, ref):
     if isinstance(ref, list) and ref[0] == "-":
         gone = [e for e in seen if e not in H._edge]
         return gone[-1 - (ref[1] % len(gone))] if gone else EID_ALPH[ref[1] % len(EID_ALPH)]
+    if isinstance(ref, list) and ref[0] == "!":
+        return EXOTIC[ref[1] % len(EXOTIC)]
     if isinstance(ref, list) and ref[0] in ("+", "+f", "+n"):  # '+f' / '+n': the same ID as an integer-valued float / numpy int
         try:
             v = peek_uid(H) + ref[1]
@@ -458,7 +476,10 @@ def net_spec(
     alph = SPEC_KINDS[kind] if kind in SPEC_KINDS else EXTRA_KINDS[kind]
     a = attrs(nested=nested, tuples=tuples) if with_attrs else st.just({})
     # isolated / pre-inserted nodes in a drawn order
-    pre = draw(st.lists(st.sampled_from(alph), max_size=4, unique=True))
+    # one spec in ten (where empty edges are allowed at all) is degenerate: no nodes, only empty edges and network attributes -
+    # a network whose len() is 0 although it is not blank
+    degenerate = allow_empty and cls != "SC" and draw(st.integers(0, 9)) == 0
+    pre = [] if degenerate else draw(st.lists(st.sampled_from(alph), max_size=4, unique=True))
     nodes = [[n, draw(a)] for n in pre]
     k = draw(st.integers(min_edges, max_edges))
     scheme = ids or draw(st.sampled_from(["auto", "auto", "perm", "gap", "str", "mixed", "zero-desc"]))
@@ -482,9 +503,13 @@ def net_spec(
     # in half of the specs the edges use only part of the alphabet, so that pre-inserted nodes stay isolated
     ealph = alph if (len(alph) <= 3 or draw(st.booleans())) else alph[: max(3, (len(alph) + 1) // 2)]
     for i in range(k):
-        if cls == "DH":
+        if degenerate:
+            edges.append([eids[i], [], [], draw(a)] if cls == "DH" else [eids[i], [], draw(a)])
+        elif cls == "DH":
             tail = draw(st.lists(st.sampled_from(ealph), min_size=0, max_size=3, unique=True))
             head = draw(st.lists(st.sampled_from(ealph), min_size=0 if (allow_empty or tail) else 1, max_size=3, unique=True))
+            if tail and draw(st.integers(0, 5)) == 0:
+                head = list(tail)  # a loop: tail == head
             edges.append([eids[i], tail, head, draw(a)])
         else:
             m = draw(st.lists(st.sampled_from(ealph), min_size=lo, max_size=min(max_size, len(ealph)), unique=True))
